@@ -98,6 +98,7 @@ class Typer:
         self.returns = []
         self.lut_attrs = set()
         self.class_const_index = []      # (func, node, axis label) constant positions used on an axis
+        self.reduced_axes = []           # (func, node, axis label) reductions
 
     # ------------------------------------------------------------------ reporting
     def ok(self, node, detail):
@@ -424,6 +425,7 @@ class Typer:
         keep = any(k.arg == 'keepdims' and const_value(k.value) for k in node.keywords)
         lab = v.labels[ax]
         self.sink('note', self.func, node, f'reduces axis {lab} of {v}')
+        self.reduced_axes.append((self.func, node, lab))
         self.reductions.append((self.func, node, lab, v)) if hasattr(self, 'reductions') else None
         if keep:
             return Arr(v.labels[:ax] + ('1',) + v.labels[ax + 1:])
@@ -674,6 +676,7 @@ class Typer:
         sub = Typer(self.prog, self.cls, self.rule, self.sink, self.attrs, self.depth + 1)
         sub.lut_attrs = self.lut_attrs
         sub.class_const_index = self.class_const_index
+        sub.reduced_axes = self.reduced_axes
         if hasattr(self, 'reductions'):
             sub.reductions = self.reductions
         return sub.run(callee, env)
@@ -754,7 +757,18 @@ def check_class(ctx, prog, rule, ci, lut_attrs=(), phases=('_initialize', '_upda
             continue
         if ph == '_compute':
             exp = EXPECTED.get(f.cls.name) if f.cls is not None else None
+            ty.class_const_index.clear()
+            ty.reduced_axes.clear()
             ty.run(f, {}, expected_return=exp)
+            if exp == ('W', 'S'):
+                # per-sample results: the value at sample s may depend on the state of sample s only
+                bad = [(fn, node, 'is indexed at a constant position') for fn, node, ax in ty.class_const_index if base(ax) == 'S'] + \
+                      [(fn, node, 'is reduced') for fn, node, ax in ty.reduced_axes if base(ax) == 'S']
+                for fn, node, what in bad:
+                    sink('bad', fn, node, f'the sample axis {what} in `{norm(node)[:60]}` while computing per-sample results: the result at one sample '
+                                          f'depends on the state of other samples')
+                if not bad:
+                    sink('ok', f, f.node, 'sample axis never reduced nor indexed at a constant position: each result column depends on its own sample only')
         else:
             ty.run(f, dict(seeds))
     return counter[0], ty
